@@ -157,6 +157,15 @@ class AnyArray(np.lib.mixins.NDArrayOperatorsMixin):
         xp = np if device_id == -1 else cupy
         return AnyArray(np.broadcast_to(xp.array(val), shape))
 
+    def __setstate__(self, state):
+        # numpy does not preserve the `writeable` flag of an array when it is
+        # pickled with protocols < 5 or deep-copied. Restore the write
+        # protection of locked arrays such that, e.g., unpickled fields stay
+        # immutable.
+        self.__dict__.update(state)
+        if not self._writeable and isinstance(self._val, np.ndarray):
+            self._val.flags.writeable = False
+
     # ---Views, copies, rights, etc.---
     def lock(self):
         """Make the AnyArray instance read-only.
